@@ -64,7 +64,7 @@ ForbiddenRaw(it, html) ==
   ~it.esc /\ (it.rune \in Control \cup Struct \/ (html /\ it.rune \in HtmlSet))
 
 (* ---- decoder items ---- *)
-Items == {"plain","esc-n","esc-q","esc-bs","esc-sl","esc-b","u-ascii","u-latin","u-nul","u-ctl","u-2028","u-bmp",
+Items == {"plain","esc-n","esc-q","esc-bs","esc-sl","esc-b","u-ascii","u-quote","u-bs","u-latin","u-nul","u-ctl","u-2028","u-bmp",
           "u-high","u-low","u-pair","u-pair-upper","mb2","mb3","mb4"}
 (* scalar classes produced: the item's own scalar, "supp" for a joined pair, "fffd" for a lone surrogate *)
 Single(i) == CASE i = "u-high" -> "HI" [] i = "u-low" -> "LO" [] i \in {"u-pair","u-pair-upper"} -> "supp:" \o i
